@@ -60,7 +60,7 @@ def sig_of(c, r):
 
 def run_cases(ctx, cases):
     binary = vlib.build("containers_replay", "containers_replay.cpp", flags=["-DOSMIUM_VERIF_STASH_GC_MIN=2"])
-    res = vlib.replay_cases(binary, cases, timeout=2400)
+    res = vlib.replay_cases(binary, cases, timeout=2400, env={"VH_CASE_TIMEOUT": "30"})
     byid = {c["id"]: c for c in cases}
     if len(res) != len(cases):
         raise vlib.ModelFailure("replay returned %d results for %d cases" % (len(res), len(cases)))
